@@ -63,17 +63,23 @@ Definition f64_bits_of_int (x : Z) : Z :=
   let m := if e <=? 52 then a * 2 ^ (52 - e) else a / 2 ^ (e - 52) in
   (if v <? 0 then 2 ^ 63 else 0) + (e + 1023) * 2 ^ 52 + (m - 2 ^ 52).
 
-Inductive nkey := NF (bits : Z) | NT (s : list Z) | NB (b : bool) | NNull.
+(* The normalised key that hash_owned_value_normalized feeds to the hasher, up to what the hash can
+   distinguish: a number is hashed as the bit pattern of an f64 (Int through `as f64`, -0.0 folded
+   onto 0.0), and two finite f64 have the same folded pattern exactly when they have the same value;
+   NV carries that value (scaled by 2^1074, Model/SqlSpec.v f_scaled).  Non-finite floats keep
+   their pattern. *)
+Inductive nkey := NV (scaled : Z) | NF (bits : Z) | NT (s : list Z) | NB (b : bool) | NNull.
 Definition norm_key (v : value) : nkey :=
   match v with
   | VNull => NNull
-  | VInt i => NF (f64_bits_of_int i)
-  | VFloat b => NF (if b =? 2 ^ 63 then 0 else b)
+  | VInt i => NV (int_scaled (round53 i))
+  | VFloat b => if f_finite b then NV (f_scaled b) else NF b
   | VText s => NT s
   | VBool b => NB b
   end.
 Definition nkey_eqb (a b : nkey) : bool :=
   match a, b with
+  | NV x, NV y => x =? y
   | NF x, NF y => x =? y
   | NT x, NT y => zlist_eqb' x y
   | NB x, NB y => Bool.eqb x y
